@@ -24,6 +24,9 @@ WEAK = {
     "Reapers_WeakGcLookup.cfg": "Inv_C16_GarbageCollection",
     "Reapers_WeakGcLookupNotFound.cfg": "Inv_C16_GarbageCollection",
     "Reapers_WeakGcReady.cfg": "Inv_C16_GarbageCollection",
+    "Reapers_WeakGcReadOrder.cfg": "Inv_C16_GarbageCollection",
+    "Reapers_WeakLiveGate.cfg": "Inv_C16_Liveness",
+    "Reapers_WeakRepairTolByType.cfg": "Inv_C16_Repair",
     "Reapers_WeakLive.cfg": "Inv_C16_Liveness",
     "Reapers_WeakLiveRound.cfg": "Inv_C16_Liveness",
     "Reapers_WeakRepairEarly.cfg": "Inv_C16_Repair",
@@ -123,8 +126,9 @@ def weak_configs(run, which, timeout=600, par=4):
 def gen_constants(run, cfg="Reapers_Gen.cfg"):
     txt = open(os.path.join(run.specdir, cfg)).read()
     out = {}
-    for k in ("EA", "LT", "RT", "TolReady", "TolDisk"):
+    for k in ("EA", "LT", "RT", "TolReady", "TolUnk", "TolDisk"):
         out[k] = int(re.search(r"\b%s = (\d+)" % k, txt).group(1))
+    out["UnknownFirst"] = re.search(r"UnknownFirst = (\w+)", txt).group(1) == "TRUE"
     out["Claims"] = re.findall(r'"(c\d)"', re.search(r"Claims = \{([^}]*)\}", txt).group(1))
     return out
 
@@ -155,8 +159,10 @@ def bgname(sc, i):
 
 
 def policies(k):
-    return [{"type": "Ready", "status": "False", "toleration": k["TolReady"]},
-            {"type": "BadDisk", "status": "True", "toleration": k["TolDisk"]}]
+    rf = {"type": "Ready", "status": "False", "toleration": k["TolReady"]}
+    ru = {"type": "Ready", "status": "Unknown", "toleration": k["TolUnk"]}
+    bd = {"type": "BadDisk", "status": "True", "toleration": k["TolDisk"]}
+    return [ru, rf, bd] if k["UnknownFirst"] else [rf, ru, bd]
 
 
 # the kind dimension of a failing read: what the injected error is typed as
@@ -175,7 +181,7 @@ def from_model(h, k, rng):
         a = ATTR[c]
         ea = k["EA"] if a["ea"] == "EA" else a["ea"]
         if a["reg"]:
-            steps.append(claim_step(c, a["pool"], ea, a["pid"]))
+            steps.append(claim_step(c, a["pool"], ea, a["pid"], initialized="True"))
             steps.append(node_step(a["node"], a["pid"], a["pool"], "True", {"BadDisk": "False"}))
         else:
             steps.append(claim_step(c, a["pool"], ea, "", launched="Unknown", registered="Unknown", instance=False))
@@ -185,6 +191,23 @@ def from_model(h, k, rng):
                                    deleting=(i <= bg[sc][2])))
     werr = lambda: rng.choice(["Server", "Server", "TooManyRequests", "Conflict"])    # failing writes
     launched = {c: ATTR[c]["reg"] for c in k["Claims"]}
+
+    def env_steps(e):
+        """environment actions that may also happen in the middle of a garbage-collection pass"""
+        a, c = e["a"], e.get("c")
+        if a == "InstanceVanishes":
+            return [{"a": "InstanceGone", "pid": ATTR[c]["pid"]}]
+        if a == "NodeReady":
+            return [{"a": "SetCond", "name": ATTR[c]["node"], "type": "Ready", "status": e["s"]}]
+        if a == "NodeGone":
+            return [{"a": "NodeGone", "name": ATTR[c]["node"]}]
+        if a == "UserDelete":
+            return [{"a": "UserDelete", "name": c}]
+        if a == "Join":
+            launched[c] = True
+            return [{"a": "SetClaim", "name": c, "launched": "True", "registered": "True", "pid": ATTR[c]["pid"], "instance": True},
+                    node_step(ATTR[c]["node"], ATTR[c]["pid"], ATTR[c]["pool"], e["s"], {"BadDisk": "False"})]
+        return None
     for e in h[1:]:
         a = e["a"]
         c = e.get("c")
@@ -204,6 +227,8 @@ def from_model(h, k, rng):
                 st["prov"] = rng.choice(PROV_KIND[kind])
             elif f == "delete":
                 st["faults"] = [fault("delete", "NodeClaim", 0, werr())]
+            if e.get("mid", {}).get("a", "none") != "none":
+                st["mid"] = env_steps(e["mid"])
             steps.append(st)
         elif a == "Live":
             st = {"a": "Live", "name": c, "faults": [], "prov": "ok" if launched[c] else "err"}
@@ -223,14 +248,10 @@ def from_model(h, k, rng):
             elif f == "delete":
                 st["faults"] = [fault("delete", "NodeClaim", 1, werr())]
             steps.append(st)
-        elif a == "InstanceVanishes":
-            steps.append({"a": "InstanceGone", "pid": ATTR[c]["pid"]})
-        elif a == "NodeReady":
-            steps.append({"a": "SetCond", "name": ATTR[c]["node"], "type": "Ready", "status": e["s"]})
+        elif env_steps(e) is not None:
+            steps += env_steps(e)
         elif a == "DiskBad":
             steps.append({"a": "SetCond", "name": ATTR[c]["node"], "type": "BadDisk", "status": e["s"]})
-        elif a == "NodeGone":
-            steps.append({"a": "NodeGone", "name": ATTR[c]["node"]})
         elif a == "NodeTerminating":
             steps.append({"a": "NodeDelete", "name": ATTR[c]["node"]})
         elif a == "BgFlip":
@@ -244,14 +265,12 @@ def from_model(h, k, rng):
             else:       # an unhealthy node repaired in an earlier wave is now terminating
                 bg[sc][2] += 1
                 steps.append({"a": "NodeDelete", "name": bgname(sc, bg[sc][2])})
-        elif a == "UserDelete":
-            steps.append({"a": "UserDelete", "name": c})
         elif a == "Launched":
             launched[c] = True
             steps.append({"a": "SetClaim", "name": c, "launched": "True", "pid": ATTR[c]["pid"], "instance": True})
         elif a == "Registered":
             steps.append({"a": "SetClaim", "name": c, "registered": "True"})
-            steps.append(node_step(ATTR[c]["node"], ATTR[c]["pid"], ATTR[c]["pool"], "True", {"BadDisk": "False"}))
+            steps.append(node_step(ATTR[c]["node"], ATTR[c]["pid"], ATTR[c]["pool"], e["s"], {"BadDisk": "False"}))
         elif a == "Restart":
             steps.append({"a": "Restart"})
         else:
@@ -284,8 +303,25 @@ def simulate(run, nsim, per_prefix, rng):
 
 
 # ---------------------------------------------------------------------- systematic placement
-POL2 = [{"type": "Ready", "status": "False", "toleration": 120}, {"type": "Ready", "status": "Unknown", "toleration": 90},
-        {"type": "BadDisk", "status": "True", "toleration": 60}]
+def pol(t, st, tol):
+    return {"type": t, "status": st, "toleration": tol}
+
+
+# the repair-policy alphabet: several policies on one condition type with different statuses and tolerations, in both
+# orders (the shorter one listed first / last), next to policies on other types
+POL2 = [pol("Ready", "False", 120), pol("Ready", "Unknown", 90), pol("BadDisk", "True", 60)]
+POLICY_SETS = {
+    "F120-U90-D60": POL2,
+    "U90-F120-D60": [pol("Ready", "Unknown", 90), pol("Ready", "False", 120), pol("BadDisk", "True", 60)],
+    "U30-D60-F120": [pol("Ready", "Unknown", 30), pol("BadDisk", "True", 60), pol("Ready", "False", 120)],
+    "F40-U120-D60": [pol("Ready", "False", 40), pol("Ready", "Unknown", 120), pol("BadDisk", "True", 60)],
+    "D60-U120-F40": [pol("BadDisk", "True", 60), pol("Ready", "Unknown", 120), pol("Ready", "False", 40)],
+    "Dt20-Df80-F50": [pol("BadDisk", "True", 20), pol("BadDisk", "False", 80), pol("Ready", "False", 50)],
+}
+
+
+def tol_of(pols, t, st):
+    return [p["toleration"] for p in pols if p["type"] == t and p["status"] == st][0]
 # clock positions around every threshold T, in milliseconds relative to it: a rounded / truncated / early clock reading
 # shows within the last second before T
 OFFS = (-1000, -501, -500, -1, 0, 1, 500)
@@ -438,7 +474,7 @@ def repair_step(name, f, rng):
 def sys_repair(tier, rng):
     behs = []
 
-    def scenario(kind, n, u, off, f, others=(0, 0), cond="BadDisk", term=0, tag=""):
+    def scenario(kind, n, u, off, f, others=(0, 0), cond="BadDisk", term=0, tag="", pols=POL2):
         """focal node n1 (claim c1) unhealthy since t=10 s; scope of `n` nodes of which `u` unhealthy (focal included), the
         last `term` of the other unhealthy ones already terminating; others = (healthy, unhealthy) nodes outside the scope
         (pool claims only); off = clock offset in ms relative to the instant the toleration elapses."""
@@ -456,15 +492,25 @@ def sys_repair(tier, rng):
                                        {"BadDisk": "True" if i >= others[0] else "False"}))
         steps.append(tick(10000))
         bad = {"a": "SetCond", "name": "n1", "type": "BadDisk", "status": "True"}
+        rdy = lambda st_: {"a": "SetCond", "name": "n1", "type": "Ready", "status": st_}
         if cond == "BadDisk":
             steps.append(bad)
-            t = 10 + TOL["BadDisk"]
+            t = 10 + tol_of(pols, "BadDisk", "True")
         elif cond == "ReadyFalse":
-            steps.append({"a": "SetCond", "name": "n1", "type": "Ready", "status": "False"})
-            t = 10 + TOL["ReadyFalse"]
+            steps.append(rdy("False"))
+            t = 10 + tol_of(pols, "Ready", "False")
         elif cond == "ReadyUnknown":
-            steps.append({"a": "SetCond", "name": "n1", "type": "Ready", "status": "Unknown"})
-            t = 10 + TOL["ReadyUnknown"]
+            steps.append(rdy("Unknown"))
+            t = 10 + tol_of(pols, "Ready", "Unknown")
+        elif cond == "Unknown-then-False":   # the condition cycles between the policies' statuses: each change restarts the clock
+            steps += [rdy("Unknown"), tick(15000), rdy("False")]
+            t = 15 + tol_of(pols, "Ready", "False")
+        elif cond == "False-then-Unknown":
+            steps += [rdy("False"), tick(15000), rdy("Unknown")]
+            t = 15 + tol_of(pols, "Ready", "Unknown")
+        elif cond == "False-True-False":
+            steps += [rdy("False"), tick(12000), rdy("True"), tick(18000), rdy("False")]
+            t = 18 + tol_of(pols, "Ready", "False")
         elif cond == "both":      # BadDisk at 10 (due 70), Ready=False at 20 (due 140): the earliest counts
             steps += [bad, tick(20000), {"a": "SetCond", "name": "n1", "type": "Ready", "status": "False"}]
             t = 10 + TOL["BadDisk"]
@@ -479,7 +525,7 @@ def sys_repair(tier, rng):
         steps.append(tick(T + off))
         steps += [repair_step("n1", f, rng), {"a": "Repair", "name": "n1"}]
         approach(steps, T, off, {"a": "Repair", "name": "n1"})
-        behs.append({"cfg": {"policies": POL2}, "steps": steps,
+        behs.append({"cfg": {"policies": pols}, "steps": steps,
                      "tag": "repair:%s:n%d:u%d:term%d:%+dms:%s:%s%s" % (kind, n, u, term, off, f, cond, tag)})
 
     # (a) the 20 % grid: pool sizes 1..11 x unhealthy counts around the ceiling, at the toleration instant; the same
@@ -510,6 +556,15 @@ def sys_repair(tier, rng):
                     if tier == "quick" and (cond not in ("BadDisk", "both") or (off != 0 and kind == "standalone")):
                         continue
                     scenario(kind, 6, 2, off, f, cond=cond)
+    # (b2) the policy alphabet: every policy list x every Ready status shape, 1 ms before and at the toleration of the
+    #      policy matching (type, status), and at the instant the *other* policy of the type would have elapsed
+    for name, pols in POLICY_SETS.items():
+        for cond in ("ReadyFalse", "ReadyUnknown", "Unknown-then-False", "False-then-Unknown", "False-True-False", "BadDisk"):
+            if name == "Dt20-Df80-F50" and cond not in ("BadDisk", "ReadyFalse"):
+                continue
+            for kind in (("pool",) if tier == "quick" else ("pool", "standalone")):
+                for off in (-1, 0):
+                    scenario(kind, 6, 1, off, "none", cond=cond, pols=pols, tag=":pol=" + name)
     # (c) read faults while the scope is over the budget (a failed read must not be taken for "no unhealthy nodes")
     for kind in ("pool", "standalone"):
         for f in ("nodeList", "nodeList404", "nodeListConflict", "claimList", "claimList404"):
@@ -622,8 +677,91 @@ def sys_liveness(tier, rng):
     return behs
 
 
+def sys_uninitialized(tier, rng):
+    """a claim that launched and registered in time but stays uninitialized (node NotReady / startup or ephemeral taint
+    never removed / requested extended resource never reported / node gone): liveness has nothing to say about it, however
+    long it lasts.  Lifecycle reconciles around both timeouts counted from every stamp it carries, and much later."""
+    behs = []
+    blockers = {
+        "node-notready": dict(ready="False"),
+        "node-unknown": dict(ready="Unknown"),
+        "node-nocondition": dict(ready=""),
+        "startup-taint": dict(ready="True", taints=["startup"]),
+        "ephemeral-taint": dict(ready="True", taints=["ephemeral"]),
+        "both-taints-notready": dict(ready="False", taints=["startup", "ephemeral"]),
+        "extres-zero": dict(ready="True", res="zero"),
+        "extres-absent": dict(ready="True"),
+        "node-gone": dict(ready="True"),
+    }
+    for why, nd in blockers.items():
+        for reg_at in (0, 200):
+            if tier == "quick" and reg_at and why not in ("node-notready", "startup-taint", "extres-zero"):
+                continue
+            ext = why.startswith("extres")
+            steps = [{"a": "Pool", "name": "p"},
+                     claim_step("c3", "p", -1, "i3", launched="True", registered="True" if reg_at == 0 else "Unknown", instance=True,
+                                startupTaint=True, extRes=1 if ext else 0)]
+            rec = {"a": "Live", "name": "c3", "prov": "ok"}
+            node = dict(node_step("n3", "i3", "p", nd.get("ready", "True"), {}), taints=nd.get("taints", []), res=nd.get("res", ""))
+            if reg_at:
+                steps += [dict(rec), tick(reg_at * 1000), {"a": "SetClaim", "name": "c3", "registered": "True"}]
+            steps.append(node)
+            if why == "node-gone":
+                steps.append({"a": "NodeGone", "name": "n3"})
+            steps.append(dict(rec))
+            # around the launch timeout and the registration timeout counted from creation and from registration
+            for T in sorted({300, 900, reg_at + 300, reg_at + 900}):
+                for off in (-1, 0, 1):
+                    steps += [tick(T * 1000 + off), dict(rec)]
+            steps += [tick(3 * 3600 * 1000), dict(rec), {"a": "Restart"}, dict(rec)]
+            # at last the blocker goes away: the claim initializes, nothing is deleted
+            if why in ("startup-taint", "ephemeral-taint", "both-taints-notready"):
+                steps += [{"a": "Untaint", "name": "n3", "taints": ["startup", "ephemeral"]},
+                          {"a": "SetCond", "name": "n3", "type": "Ready", "status": "True"}, dict(rec)]
+            elif why.startswith("node-") and why != "node-gone":
+                steps += [{"a": "SetCond", "name": "n3", "type": "Ready", "status": "True"}, dict(rec)]
+            steps += [tick(4 * 3600 * 1000), dict(rec)]
+            behs.append({"cfg": {"policies": []}, "steps": steps, "tag": "live-uninitialized:%s:reg@%d" % (why, reg_at)})
+    return behs
+
+
+def sys_gc_mid(tier, rng):
+    """one environment step between the two listing reads of a garbage-collection pass (whichever order the controller
+    issues them in): a claim joins (launched + registered, node not yet Ready) / an instance vanishes / a node turns
+    NotReady / a user deletes a claim while the pass is in flight."""
+    behs = []
+    for join_ready in ("False", "Unknown", "", "True", "absent"):
+        for other in ("none", "gone-ready", "gone-notready"):
+            steps = [{"a": "Pool", "name": "p"},
+                     claim_step("c1", "p", -1, "i1"), node_step("n1", "i1", "p", "True" if other != "gone-notready" else "False"),
+                     claim_step("cj", "p", -1, "", launched="Unknown", registered="Unknown", instance=False),
+                     tick(30000)]
+            if other != "none":
+                steps.append({"a": "InstanceGone", "pid": "i1"})
+            mid = [{"a": "SetClaim", "name": "cj", "launched": "True", "registered": "True", "pid": "ij", "instance": True}]
+            if join_ready != "absent":
+                mid.append(node_step("nj", "ij", "p", join_ready))
+            steps += [{"a": "Gc", "mid": mid}, {"a": "Gc"}]
+            behs.append({"cfg": {"policies": []}, "steps": steps, "tag": "gc-mid:join:%s:%s" % (join_ready or "nocond", other)})
+    for mid_kind in ("vanish", "notready", "ready", "userdelete", "nodegone"):
+        for ns in ("True", "False"):
+            steps = [{"a": "Pool", "name": "p"}, claim_step("c1", "p", -1, "i1"), node_step("n1", "i1", "p", ns),
+                     claim_step("c2", "", -1, "i2"), node_step("n2", "i2", "", "False"), tick(30000)]
+            if mid_kind != "vanish":
+                steps.append({"a": "InstanceGone", "pid": "i1"})
+            mid = {"vanish": [{"a": "InstanceGone", "pid": "i1"}],
+                   "notready": [{"a": "SetCond", "name": "n1", "type": "Ready", "status": "False"}],
+                   "ready": [{"a": "SetCond", "name": "n1", "type": "Ready", "status": "True"}],
+                   "userdelete": [{"a": "UserDelete", "name": "c1"}],
+                   "nodegone": [{"a": "NodeGone", "name": "n1"}]}[mid_kind]
+            steps += [{"a": "Gc", "mid": mid}, {"a": "Gc"}]
+            behs.append({"cfg": {"policies": []}, "steps": steps, "tag": "gc-mid:%s:%s" % (mid_kind, ns)})
+    return behs
+
+
 def systematic(tier, rng):
-    return sys_expiration(tier, rng) + sys_gc(tier, rng) + sys_repair(tier, rng) + sys_repair_waves(tier, rng) + sys_liveness(tier, rng)
+    return (sys_expiration(tier, rng) + sys_gc(tier, rng) + sys_gc_mid(tier, rng) + sys_repair(tier, rng) + sys_repair_waves(tier, rng)
+            + sys_liveness(tier, rng) + sys_uninitialized(tier, rng))
 
 
 # ---------------------------------------------------------------------- recording / accounting
